@@ -1,7 +1,7 @@
 """C06 -- schema verdict is the order-independent conjunction of its rules' verdicts.
 
 T-space: every sequence (= every permutation of every sub-multiset) of 0..n rules from a
-12-rule pool x 20 documents; relational oracle on the implementation's own rule tests,
+12-rule pool x 22 documents; relational oracle on the implementation's own rule tests,
 permutation invariance across the sequences of one multiset, absolute reference model.
 """
 import itertools
@@ -13,15 +13,15 @@ from mc.run import Result
 from valida.schema import Schema
 
 META = {
-    "rule": "every ordered sequence of 0..n rules (n=2 quick, 4 thorough) from a 10-rule cast-free pool "
-            "(path lengths 0,0,1,1,1,1,1,1,2,2,1,1 with ties; '1' vs 1 keys) x 20 documents; a case is one (multiset of rules, "
+    "rule": "every ordered sequence of 0..n rules (n=2 quick, 4 thorough) from a 14-rule cast-free pool "
+            "(path lengths 0,0,1,1,1,1,1,1,2,2,1,1 with ties; '1' vs 1 keys) x 22 documents; a case is one (multiset of rules, "
             "document) with all its permutations; non-trivial = at least two rules and at least one failure "
             "or one untested rule",
     "assumptions": ["the layout of the failure report is not judged: it must be a str and, when there are "
                     "failures, some line must contain the elements of each failing path in order",
                     "frac_rules_tested is compared for schemas with >= 1 rule only (undefined for the empty schema)"],
-    "bounds": {"quick": {"rules_per_schema": "0-2 over the whole pool, 3-4 over a 5-rule sub-pool", "documents": 20},
-               "thorough": {"rules_per_schema": "0-4", "documents": 20}},
+    "bounds": {"quick": {"rules_per_schema": "0-2 over the whole pool, 3-4 over a 5-rule sub-pool", "documents": 22},
+               "thorough": {"rules_per_schema": "0-4", "documents": 22}},
 }
 
 L = T.leaf
@@ -39,6 +39,10 @@ POOL = [
     T.rule(P((("prim", "c"), ("list", None, None, None))), L("Value", "greater_than", 0)),
     T.rule(P((("prim", "1"),)), L("Value", "equal_to", "x")),
     T.rule(P((("prim", 1),)), L("Value", "equal_to", 5)),
+    # an `or` / `xor` whose first branch is undefined for strings / None while the other branch holds
+    T.rule(P((("prim", "a"),)), ("or", L("Value", "greater_than", 0), L("ValueDataType", "in_", [str, type(None)]))),
+    # a three-part fan-out path: list items that lack the key (scalars, None) before and between those that have it
+    T.rule(P((("prim", "c"), ("list", None, None, None), ("prim", "k"))), L("Value", "greater_than", 0)),
 ]
 DOCS = [
     {"a": 1, "b": 2}, {"a": {"b": 1}}, {"a": {"b": 2}, "b": 5}, {"a": "x", "b": "y", "c": [1, 0, -1]},
@@ -47,6 +51,7 @@ DOCS = [
     {"a": 1.5, 1: None, None: [1], "b": {}, 2.5: 0.5}, {"c": [0, "x", -1, None, [1]], None: None},
     # keys that equal the indices / keys failing above but differ in type (0 == False == 0.0, 1 == True == 1.0)
     [None, None], {False: 2, True: None}, {0.0: None, 1.0: "q"},
+    {"a": "x", "c": [{"k": 1}, 0, {"k": -1}, None, {"k": 0}, [], {"k": 2}]}, {"a": None, "c": [5, {"k": 0}]},
 ]
 
 
